@@ -45,6 +45,9 @@ PROP = {
  'out-of-range encoder options': ('C19', 'lc+lp>4, lp=5, pb=5, nice_len outside 8..=273, dict 0, delta distance 0, unaligned BCJ offsets, preset dictionary with XZ/LZIP: undecodable streams or panics'),
  'empty preset dictionary': ('C19', 'Some(empty) preset suppressed the initial dictionary reset: own reader rejects the stream'),
  'scalar position normalisation produced negative positions': ('C14', 'saturating_sub clamps at i32::MIN: no_std builds and the unaligned ends of SIMD builds got negative positions after the 2^31 wrap -> overflow panics / wrong matches'),
+ 'BCJ2Reader reported a clean end of stream when one of its input streams ended early': ('C05', 'when the decoder needed more of the main/call/jump/rc stream and that stream was at its end, read() returned Ok(0) with fewer bytes than the expected size: silent truncation (bcj2.io, every cut of one of the four streams; found when BCJ2 scenarios were added to C05 after seeded change S-C05-4)'),
+ "BCJ2Reader dropped an input stream's error": ('C05', 'a persistent error from the look-ahead read behind the last byte of output was returned as Ok(n) and never seen again: clean end of stream although a call the reader made had failed (bcj2.io, error at every call index)'),
+ 'XZReader did not compare the index records with the blocks': ('C04', 'only the record count was compared: a file with two blocks of different sizes swapped (every block with valid header CRC and check) was read as a valid file with the data in the wrong order; liblzma rejects it (corrupt.field whole-structure edits, added after seeded change S-C04-4)'),
  'assembly decode_direct_bits disagreed': ('C14', 'asm clamps reads/position at the buffer end, portable substitutes zeros: damaged chunks decoded differently with and without optimization'),
 }
 log = subprocess.run(['git','-C','/repo','log','--reverse','--format=%h %s'],capture_output=True,text=True).stdout.splitlines()
